@@ -27,6 +27,9 @@ class LenS(S):
 def length_of(x):
     if isinstance(x, sym.Dep):
         return x._generic()
+    if isinstance(x, sym.SeqA):
+        ax = x.axes[0]
+        return LenS(ax.n if x.dom is sp.true else sym.sigma(ax, num(x.dom)), (ax,), x.dom)
     if isinstance(x, A):
         if not x.axes:
             raise TypeError("len() of unsized object")
@@ -225,6 +228,9 @@ def m_array(x, *a, **k):
 
 def m_isinstance(x, cls):
     if isinstance(x, S):
+        tys0 = cls if isinstance(cls, tuple) else (cls,)
+        if not sym.isbool(x.e) and not x.e.is_integer and any(c in (np.floating, np.number, np.generic, np.float64) for c in tys0) and (x.kind == "np" or float in tys0):
+            return True
         if cls in (int, float, bool) or (isinstance(cls, tuple) and any(c in (int, float) for c in cls)):
             # symbolic scalar standing for a python number: int-ness follows the symbol
             tys = cls if isinstance(cls, tuple) else (cls,)
@@ -270,7 +276,13 @@ def build_models(interp):
     reg(np.square, _ew(lambda e: e * e))
     reg(np.negative, _ew(lambda e: -e))
     reg(np.floor, _ew(sp.floor))
-    reg(np.isfinite, _ew(lambda e: sp.true))
+    def m_isfinite(x, *a, **k):
+        # reals are finite; values the harness declares as possibly NaN/inf (sym.MAYBE_NONFINITE) get an abstract truth value
+        if isinstance(x, S) and x.e in sym.MAYBE_NONFINITE:
+            return S(sp.Ne(sp.Function("isfinite")(x.e), 0))
+        return _ew(lambda e: sp.true)(x)
+
+    reg(np.isfinite, m_isfinite)
     reg(np.single, _ew(lambda e: e))
     reg(np.float32, _ew(lambda e: e))
     reg(np.float64, _ew(lambda e: e))
@@ -394,6 +406,27 @@ def build_models(interp):
     reg(abs, lambda x: abs(x))
     reg(len, length_of)
     reg(print, lambda *a, **k: None, always=True)
+
+    def m_zip(*arrs, **k):
+        if len(arrs) == 1 and isinstance(arrs[0], sym.StarSeq):
+            # zip(*seq): unzip a sequence of per-event tuples into one array per component
+            sq = arrs[0].seq
+            return tuple(A(sq.axes, e, sq.dom) for e in sq.elems)
+        if all(isinstance(a, A) and a.ndim == 1 for a in arrs) and arrs:
+            base = arrs[0]
+            trunc = None
+            for a in arrs[1:]:
+                if a.axes != base.axes:
+                    raise Unsupported("zip of arrays over different axes")
+                if a.dom != base.dom and not Hooks.domcheck(base.dom, a.dom, "zip() operands"):
+                    trunc = "zip() of arrays of different length silently truncates to the shortest (%s vs %s)" % (base.dom, a.dom)
+            dom = sp.And(*[a.dom for a in arrs])
+            return sym.SeqA(base.axes, [a.e for a in arrs], dom, truncated=trunc)
+        if any(isinstance(a, (A, sym.SeqA)) for a in arrs):
+            raise Unsupported("zip mixing symbolic arrays and other iterables")
+        return builtins.zip(*arrs, **k)
+
+    reg(zip, m_zip)
     reg(isinstance, m_isinstance)
     reg(np.size, lambda x: x.size)
     reg(np.shape, lambda x: x.shape)
